@@ -53,3 +53,15 @@ Fixpoint lkrun_idx (s : lkstate) (es : list lev) (i : nat) : nat + lkstate :=
   | [] => inr s
   | e :: r => match lkstep s e with Some s' => lkrun_idx s' r (S i) | None => inl i end
   end.
+
+(* ---- vocabulary for the ordering theorem ---- *)
+Definition acc_of (e : lev) : option (nat * bool) :=
+  match e with LRead t => Some (t, false) | LWrite t => Some (t, true) | _ => None end.
+
+(* a release / an acquisition by thread t; the flag says whether it is the exclusive mode *)
+Definition release_by (t : nat) (e : lev) (excl : bool) : Prop :=
+  match e with LUnlock u => u = t /\ excl = true | LRUnlock u => u = t /\ excl = false | _ => False end.
+Definition acquire_by (t : nat) (e : lev) (excl : bool) : Prop :=
+  match e with LLock u => u = t /\ excl = true | LRLock u => u = t /\ excl = false | _ => False end.
+
+Definition holds (s : lkstate) (t : nat) : bool := is_writer s t || is_reader s t.
